@@ -100,7 +100,7 @@ func runC16(t *testing.T, c simrt.Chooser, o Opts) *Out {
 		if cr.ExecErr == "" && len(cr.Errs) == 0 {
 			out.violate("C16.silent-failure", sc.Spec.Kind+"/vanished", "argv %v: the target list could not be opened again for the second port, but neither an error record nor a failure status was produced", sc.World.Argv)
 		}
-		if cr.ReturnT > time.Duration(1+len(sc.Spec.Ports)/200)*sc.exitDelay+time.Second {
+		if cr.ReturnT > time.Duration(1+len(sc.Spec.Ports))*sc.exitDelay+time.Second {
 			out.violate("C16.late-exit", sc.Spec.Kind+"/vanished-file", "argv %v: returned at %v (exit delay %v)", sc.World.Argv, cr.ReturnT, sc.exitDelay)
 		}
 		return out
@@ -112,7 +112,7 @@ func runC16(t *testing.T, c simrt.Chooser, o Opts) *Out {
 		if len(cr.Wire) > 0 {
 			out.violate("C16.silent-failure", sc.Spec.Kind+"/sent", "argv %v: %d frames sent although the target list could not be opened", sc.World.Argv, len(cr.Wire))
 		}
-		if cr.ReturnT > time.Duration(1+len(sc.Spec.Ports)/200)*sc.exitDelay+time.Second {
+		if cr.ReturnT > time.Duration(1+len(sc.Spec.Ports))*sc.exitDelay+time.Second {
 			out.violate("C16.late-exit", sc.Spec.Kind+"/missing-file", "argv %v: returned at %v (exit delay %v)", sc.World.Argv, cr.ReturnT, sc.exitDelay)
 		}
 		return out
